@@ -248,7 +248,8 @@ theorem selectorEvaluate_ok {E : Engine} {cfg : Cfg} {votes : Profile} {n : Nat}
           injection hd with hd
           subst hd
           refine ⟨st, (Reach.init h0).runCounts hk, ?_, rfl⟩
-          simpa [finished, selectorInput] using hfin
+          unfold finished at hfin
+          exact of_decide_eq_true hfin
         · cases hd
 
 end VL.STV
